@@ -38,6 +38,7 @@ def gen_plan(seed: int, tier: str) -> dict:
         "frame": r.choice(["max", "mixed", 16]),
         "zero_latency": r.choice([0, 0, 0.3]),
         "n_chars": 12,
+        "coalesce": r.choice([0, 0, 0.3, 1.0]),  # a send may share one read with the previous send still in flight
     }
     if faulty:
         fw = r.choice([0.1, 0.3, 1.0])
@@ -68,6 +69,9 @@ def gen_plan(seed: int, tier: str) -> dict:
         elif x < 0.62:
             ids = r.sample(subs_pool, r.choice([1, 1, 2]))
             op = {"op": "event", "n": r.choice([1, 1, 2, 3, 6]), "ids": [list(i) for i in ids], "raw": r.choice([None] * 6 + ["empty", "nonjson"])}
+            if r.random() < 0.3:
+                # right behind the next secure response (a subscription acknowledgement after a reconnect, a read), same read
+                op["after_response"] = True
         elif faulty and x < 0.78:
             op = {"op": r.choice(["rst", "fin"])}
         elif x < 0.84:
